@@ -1,5 +1,6 @@
 #!/usr/bin/env python3
-"""Run the registered checks against a seeded change: apply /verif/seeded/<id>/patch.diff to /repo, run the quick checks,
+"""Run the registered checks against a seeded change (or, with --neutral, a behaviour-preserving refactoring under
+/verif/neutral/<id>/): apply /verif/seeded/<id>/patch.diff to /repo, run the quick checks,
 undo it straight afterwards (git -C /repo checkout -- .).  Usage: tools/seeded.py <id> [props...]   (default: all 20)"""
 import json
 import os
@@ -10,9 +11,13 @@ HERE = os.path.dirname(os.path.dirname(os.path.abspath(__file__)))
 
 
 def main():
+    base = "seeded"
+    if sys.argv[1] == "--neutral":          # behaviour-preserving refactorings: every check must stay silent
+        base = "neutral"
+        del sys.argv[1]
     sid = sys.argv[1]
     props = sys.argv[2:] or ["C%02d" % i for i in range(1, 21)]
-    patch = os.path.join(HERE, "seeded", sid, "patch.diff")
+    patch = os.path.join(HERE, base, sid, "patch.diff")
     st = subprocess.run(["git", "-C", "/repo", "status", "--porcelain", "--untracked-files=no"], stdout=subprocess.PIPE, text=True).stdout.strip()
     if st:
         print("refusing: /repo has local modifications:\n" + st)
@@ -34,7 +39,7 @@ def main():
         subprocess.run(["git", "-C", "/repo", "checkout", "--", "."])
         for f, t in saved.items():
             open(os.path.join(evdir, f), "w").write(t)
-    out = os.path.join(HERE, "seeded", sid, "detection.json")
+    out = os.path.join(HERE, base, sid, "detection.json")
     if len(sys.argv) > 2 and os.path.exists(out):
         # partial run: merge into the recorded results
         old = json.load(open(out)).get("results", {})
